@@ -76,14 +76,23 @@ def _theorems_of(path: str, ns: str) -> list[str]:
     src = strip_comments(open(path, encoding='utf-8').read())
     return [f'{ns}.{m}' for m in re.findall(r'^\s*theorem\s+([A-Za-z_][\w\.\']*)', src, re.M)]
 
+def propsgen_modules(pid: str) -> list[str]:
+    """PropsGen/<pid>.lean and PropsGen/<pid>_<Domain>.lean (one per translation domain): module base names"""
+    d = os.path.join(LEAN, 'MalVerif', 'PropsGen')
+    if not os.path.isdir(d): return []
+    return sorted(f[:-5] for f in os.listdir(d) if f.endswith('.lean') and (f == f'{pid}.lean' or f.startswith(f'{pid}_')))
+
 def prop_theorems(pid: str) -> list[str]:
-    """names of the theorems stated in Props/<pid>.lean (namespace MalVerif.<pid>) and, where the property has a
-    translated-code counterpart, in PropsGen/<pid>.lean (namespace MalVerif.PropsGen.<pid>)"""
-    return _theorems_of(os.path.join(LEAN, 'MalVerif', 'Props', f'{pid}.lean'), f'MalVerif.{pid}') + \
-        _theorems_of(os.path.join(LEAN, 'MalVerif', 'PropsGen', f'{pid}.lean'), f'MalVerif.PropsGen.{pid}')
+    """names of the theorems stated in Props/<pid>.lean (namespace MalVerif.<pid>) and, where the property has
+    translated-code counterparts, in PropsGen/<pid>.lean / PropsGen/<pid>_<Domain>.lean (namespace
+    MalVerif.PropsGen.<file name>)"""
+    res = _theorems_of(os.path.join(LEAN, 'MalVerif', 'Props', f'{pid}.lean'), f'MalVerif.{pid}')
+    for m in propsgen_modules(pid):
+        res += _theorems_of(os.path.join(LEAN, 'MalVerif', 'PropsGen', f'{m}.lean'), f'MalVerif.PropsGen.{m}')
+    return res
 
 def has_propsgen(pid: str) -> bool:
-    return os.path.exists(os.path.join(LEAN, 'MalVerif', 'PropsGen', f'{pid}.lean'))
+    return bool(propsgen_modules(pid))
 
 def lake_build(timeout=1800) -> tuple[bool, str]:
     p = subprocess.run(['lake', 'build'], cwd=LEAN, capture_output=True, text=True, timeout=timeout)
@@ -99,7 +108,7 @@ def axiom_audit(pid: str, theorems: list[str]) -> dict:
     f = os.path.join(d, f'Audit_{pid}_{os.getpid()}.lean')
     with open(f, 'w') as fh:
         fh.write(f'import MalVerif.Props.{pid}\n')
-        if has_propsgen(pid): fh.write(f'import MalVerif.PropsGen.{pid}\n')
+        for m in propsgen_modules(pid): fh.write(f'import MalVerif.PropsGen.{m}\n')
         for t in theorems:
             fh.write(f'#print axioms {t}\n')
     try:
@@ -134,7 +143,7 @@ def lean_side(pid: str, tier: str) -> dict:
         res.update(axioms={}, bad=[f'build failed'])
     if tier == 'thorough' and ok and thms and os.environ.get('VERIF_NO_LEANCHECKER') != '1':
         p = subprocess.run(['lake', 'env', 'leanchecker', f'MalVerif.Props.{pid}'] +
-                           ([f'MalVerif.PropsGen.{pid}'] if has_propsgen(pid) else []), cwd=LEAN,
+                           [f'MalVerif.PropsGen.{m}' for m in propsgen_modules(pid)], cwd=LEAN,
                            capture_output=True, text=True, timeout=3600)
         res['leanchecker'] = 'ok' if p.returncode == 0 else (p.stdout + p.stderr)[-500:]
         if p.returncode != 0:
